@@ -9,6 +9,7 @@ from .c01 import norm, generator_out_class, EXPECT
 
 LEVEL = 'other'
 RULES = {
+    'C18.R6': 'the node-count estimate that pre-sizes the tree for every architecture cannot panic: its unsigned subtractions are saturating / checked or guarded',
     'C18.R5': helpers.RULE_TEXT,
     'C18.R1': 'check dominates push: every builder queues its layer only after compatible_dim(indim) / valid_index(idx) on its own argument succeeded; the two tests mean == in_dim / < in_dim (in_dim possibly read through max_dim())',
     'C18.R2': 'tracked shape = output dimension: a builder whose layer changes the dimension assigns current_shape before recording it (post-operator shape)',
@@ -17,7 +18,7 @@ RULES = {
 }
 CONTROL_REV = '078b142'  # thorough tier: the rules must still report the defects found (and since fixed) on the original tree
 CONTROLS = [('C18.R2', 'Architecture::argmax#shape')]
-FLOORS = {'C18.R5': 3, 'C18.R1': 8, 'C18.R2': 13, 'C18.R3': 15, 'C18.R4': 1}
+FLOORS = {'C18.R6': 1, 'C18.R5': 5, 'C18.R1': 8, 'C18.R2': 13, 'C18.R3': 15, 'C18.R4': 1}
 EXPLANATION = 'Guard and table rules over the Architecture builders and the npz reader.'
 DOES_NOT_DECIDE = ('the split-composition clause of extract_range (value-level), ordering of names for non-zero-padded indices (not settled by the dialect\'s '
                    'documentation), minimum dimension for argmax')
@@ -28,6 +29,7 @@ LAYERWISE = {'relu': 'partial_relu', 'leaky_relu': 'partial_leaky_relu', 'hard_t
 
 def run(ctx):
     helpers.run_for(ctx)
+    prune.check_no_unsigned_underflow(ctx, 'C18.R6', '<SimpleNodeEstimator as NodeEstimator>::estimate_nodes')
     F = ctx.facts
     SELF = ('param', 'self')
     SHAPE = ('field', SELF, 'current_shape')
